@@ -47,14 +47,27 @@ type ctxKey struct{}
 // tagPropagator carries one header per call: the value stored in the context.
 type tagPropagator struct{}
 
+// leakKey marks a call whose Inject fails AFTER it has written headers: nothing of
+// what it wrote may ever show up on another call's message.
+type leakKey struct{}
+
+var errInjectFailed = fmt.Errorf("verif: injected propagator failure")
+
 func (tagPropagator) Inject(ctx context.Context, h nethttp.Header) error {
 	if v, ok := ctx.Value(ctxKey{}).(string); ok {
 		h.Set("x-verif-tag", v)
+	}
+	if v, ok := ctx.Value(leakKey{}).(string); ok {
+		h.Set("x-verif-leak", v)
+		return errInjectFailed
 	}
 	return nil
 }
 
 func (tagPropagator) Extract(ctx context.Context, h nethttp.Header) (context.Context, error) {
+	if v := h.Get("x-verif-leak"); v != "" {
+		ctx = context.WithValue(ctx, leakKey{}, v)
+	}
 	if v := h.Get("x-verif-tag"); v != "" {
 		return context.WithValue(ctx, ctxKey{}, v), nil
 	}
@@ -74,6 +87,9 @@ func remoteHandler(rc *actor.ReceiveContext, p *Probe) {
 		return
 	}
 	hdr, _ := rc.Context().Value(ctxKey{}).(string)
+	if leak, ok := rc.Context().Value(leakKey{}).(string); ok {
+		p.S.Ev(Ev{Actor: p.Name, Inc: p.Inc, Kind: "foreign-header", Tag: tag, From: from, MSeq: seq, Aux: leak})
+	}
 	p.S.Ev(Ev{Actor: p.Name, Inc: p.Inc, Kind: "recv-enter", Tag: tag, From: from, MSeq: seq, Aux: hdr})
 	p.Handled = append(p.Handled, tag)
 	for i := 0; i < len(ops); i++ {
@@ -452,6 +468,17 @@ func c28Run(c *Ctx) {
 				}
 				hv := fmt.Sprintf("h%d", tag)
 				ctx := context.WithValue(rp.A.Ctx, ctxKey{}, hv)
+				if c.W.Draw(8) == 7 {
+					// this caller's Inject writes a header and then fails: the call is not sent, and the
+					// header it wrote must not travel with anybody else's message (pooled carriers)
+					c.Fault("propagator-inject-fails-after-writing")
+					lctx := context.WithValue(ctx, leakKey{}, fmt.Sprintf("leak-of-%d", tag))
+					if c.W.Draw(2) == 0 {
+						_ = fpid.Tell(lctx, to, rmsg(c.Seq(), t, -1, ""))
+					} else {
+						_, _ = fpid.Ask(lctx, to, rmsg(c.Seq(), t, -1, "r"), 50*time.Millisecond)
+					}
+				}
 				c.Ops++
 				switch c.W.Draw(4) {
 				case 3:
@@ -534,8 +561,15 @@ func c29Finish(c *Ctx) {
 		return
 	}
 	for _, e := range st.rp.A.Log {
+		if e.Kind == "foreign-header" && e.MSeq != -1 {
+			c.Fail("metadata-foreign-header", "ContextPropagator", "message tag %d was handled with header x-verif-leak=%q, which another caller's failed Inject had written: headers of one call travelled with another call's message", e.Tag, e.Aux)
+			return
+		}
 		if e.Kind != "recv-enter" {
 			continue
+		}
+		if e.MSeq == -1 {
+			continue // the message of a call whose Inject failed (if it was sent at all, its own header is not judged)
 		}
 		want := fmt.Sprintf("h%d", e.Tag)
 		if got, _ := e.Aux.(string); got != want && got != "batch" {
